@@ -28,6 +28,10 @@ class _Return(Exception):
         self.v = v
 
 
+_STR_METHODS = frozenset({'startswith', 'endswith', 'lower', 'upper', 'strip', 'lstrip', 'rstrip', 'split', 'rsplit', 'partition', 'rpartition',
+                          'replace', 'find', 'rfind', 'isdigit', 'join', 'format', 'removeprefix', 'removesuffix', 'title', 'capitalize'})
+
+
 class _Continue(Exception):
     pass
 
@@ -276,6 +280,16 @@ class FDE:
         return bool(v)
 
     def _attr(self, base, attr, fi=None):
+        if isinstance(base, tuple) and base and base[0] in ('super', 'super_ayns'):
+            _, o, after = base
+            if attr == 'ayns' and base[0] == 'super':
+                return ('super_ayns', o, after)
+            t = self.repo.resolve(o.cls, attr, ayns=base[0] == 'super_ayns', after=after)
+            if t is None:
+                if attr in ('__init__', '__setstate__', '__init_subclass__'):
+                    return ('noop',)
+                raise Unsupported('super().%s not found after %s' % (attr, after))
+            return Bound(o, t, attr, base[0] == 'super_ayns')
         if isinstance(base, Ayns):
             o = base.obj
             t = self.repo.resolve(o.cls, attr, ayns=True)
@@ -312,6 +326,10 @@ class FDE:
             return ('objdictmethod', base, attr)
         if isinstance(base, dict) and attr in ('get', 'items', 'keys', 'values', 'pop', 'update', 'setdefault'):
             return ('dictmethod', base, attr)
+        if isinstance(base, str) and attr in _STR_METHODS:
+            return ('strmethod', base, attr)
+        if isinstance(base, list) and attr in ('append', 'extend', 'copy', 'index', 'count'):
+            return ('listmethod', base, attr)
         raise Unsupported('attribute %s of %r' % (attr, base))
 
     def _ev(self, e, env, fi):
@@ -436,6 +454,21 @@ class FDE:
                 if all(self._truth(self._ev(c, env2, fi)) for c in gen.ifs):
                     out.append(self._ev(e.elt, env2, fi))
             return out
+        if isinstance(e, (ast.DictComp, ast.SetComp)) and len(e.generators) == 1 and not e.generators[0].is_async:
+            gen = e.generators[0]
+            it = self._ev(gen.iter, env, fi)
+            if not isinstance(it, (list, tuple)):
+                raise Unsupported('comprehension over non-concrete iterable: ' + unparse(gen.iter))
+            out = {} if isinstance(e, ast.DictComp) else set()
+            for x in it:
+                env2 = dict(env)
+                self._assign(gen.target, x, env2, fi)
+                if all(self._truth(self._ev(c, env2, fi)) for c in gen.ifs):
+                    if isinstance(e, ast.DictComp):
+                        out[self._ev(e.key, env2, fi)] = self._ev(e.value, env2, fi)
+                    else:
+                        out.add(self._ev(e.elt, env2, fi))
+            return out
         if isinstance(e, ast.BinOp) and isinstance(e.op, ast.Add):
             a, b = self._ev(e.left, env, fi), self._ev(e.right, env, fi)
             if isinstance(a, Opaque) or isinstance(b, Opaque):
@@ -501,6 +534,19 @@ class FDE:
                         return False
                     return a in o.f or self.repo.class_attr(o.cls, a)[1] is not None or self.repo.resolve(o.cls, a) is not None
                 raise Unsupported('hasattr on %r' % (o,))
+            if n == 'super' and not args and fi is not None and fi.cls is not None:
+                params = fi.params()
+                if params and params[0] in env and isinstance(env[params[0]], Obj):
+                    return ('super', env[params[0]], fi.cls.name)
+                raise Unsupported('super() outside a method on a node object')
+            if n == 'setattr' and len(args) == 3:
+                o, a, v = args
+                if isinstance(o, Obj) and isinstance(a, str):
+                    o.f[a] = v
+                    o.missing.discard(a)
+                    self.effects.append(('setattr', o, a, v))
+                    return None
+                raise Unsupported('setattr on %r' % (o,))
             if n == 'getattr':
                 o, a = args[0], args[1]
                 if isinstance(o, Obj) and isinstance(a, str):
@@ -548,6 +594,12 @@ class FDE:
             targets = self.repo.resolve_call(e, fi) if fi is not None else []
             if targets and n not in self.stubs:
                 return self._invoke(targets[0], args, kwargs)
+            if n in self.repo.classes and n not in env:
+                # construction of a node class: recorded; wrapping an existing node object goes through the metaclass
+                self.effects.append(('instantiate', n, tuple(args), tuple(sorted(kwargs.items(), key=lambda kv: kv[0]))))
+                if n == 'ConfigNode' and args and isinstance(args[0], Obj) and 'ConfigNodeMeta.__call__' in self.repo.functions:
+                    return self._invoke(self.repo.functions['ConfigNodeMeta.__call__'], [('class', n)] + args, kwargs)
+                return Opaque('instance of ' + n)
             raise Unsupported('call of %s (unresolved)' % n)
         if isinstance(f, ast.Attribute):
             target = self._ev(f, env, fi)
@@ -600,5 +652,13 @@ class FDE:
                     return list(d.keys())
                 if m == 'values':
                     return list(d.values())
+            if isinstance(target, tuple) and target and target[0] == 'noop':
+                return None
+            if isinstance(target, tuple) and target and target[0] == 'strmethod':
+                if all(isinstance(a, (str, int, tuple)) for a in args):
+                    return getattr(target[1], target[2])(*args)
+                raise Unsupported('str.%s on abstract arguments' % target[2])
+            if isinstance(target, tuple) and target and target[0] == 'listmethod':
+                return getattr(target[1], target[2])(*args)
             raise Unsupported('call of %s' % unparse(f))
         raise Unsupported('call of %s' % unparse(f))
